@@ -437,6 +437,13 @@ macro_rules! family {
                 $(#[serde(default, skip_serializing_if = "Option::is_none")] pub $xz: Option<Extra>,)?
             }
 
+            /// an object that declares no fields at all
+            #[derive(Serialize, Deserialize, Clone, Debug, PartialEq)]
+            pub struct Marker {
+                $(#[serde(default, skip_serializing_if = "Option::is_none")] pub $xa: Option<Extra>,)?
+                $(#[serde(default, skip_serializing_if = "Option::is_none")] pub $xz: Option<Extra>,)?
+            }
+
             #[derive(Serialize, Deserialize, Clone, Debug, PartialEq)]
             pub struct Wrap(pub Leaf);
 
@@ -486,6 +493,8 @@ macro_rules! family {
                 pub var: Vec<Var>,
                 pub maps: Option<Box<Maps>>,
                 pub oo: Option<Vec<Option<Leaf>>>,
+                pub marker: Option<Marker>,
+                pub markers: BTreeMap<String, Vec<Marker>>,
                 $(#[serde(default, skip_serializing_if = "Option::is_none")] pub $xz: Option<Extra>,)?
             }
 
@@ -537,6 +546,8 @@ macro_rules! family {
                         var: self.var.iter().map(|v| v.strip()).collect(),
                         maps: self.maps.as_ref().map(|m| Box::new(m.strip())),
                         oo: self.oo.as_ref().map(|v| v.iter().map(|o| o.as_ref().map(|l| l.strip())).collect()),
+                        marker: self.marker.as_ref().map(|_| super::plain::Marker {}),
+                        markers: self.markers.iter().map(|(k, v)| (k.clone(), v.iter().map(|_| super::plain::Marker {}).collect())).collect(),
                     }
                 }
             }
@@ -548,6 +559,15 @@ macro_rules! family {
                         d: TGen::tgen(t, g, d), b: TGen::tgen(t, g, d),
                         $($xm: draw_extra(t, g, stringify!($xm)),)?
                         s: TGen::tgen(t, g, d), i: TGen::tgen(t, g, d), l: TGen::tgen(t, g, d), f: TGen::tgen(t, g, d), od: TGen::tgen(t, g, d),
+                        $($xz: draw_extra(t, g, stringify!($xz)),)?
+                    }
+                }
+            }
+            impl TGen for Marker {
+                fn tgen(t: &mut Tape, g: &mut GenCfg, _d: u32) -> Self {
+                    let _ = (&t, &g);
+                    Marker {
+                        $($xa: draw_extra(t, g, stringify!($xa)),)?
                         $($xz: draw_extra(t, g, stringify!($xz)),)?
                     }
                 }
@@ -590,6 +610,7 @@ macro_rules! family {
                         leaf: TGen::tgen(t, g, d), kids: TGen::tgen(t, g, d), opt: TGen::tgen(t, g, d), wrap: TGen::tgen(t, g, d),
                         $($xm: draw_extra(t, g, stringify!($xm)),)?
                         pair: TGen::tgen(t, g, d), ts: TGen::tgen(t, g, d), var: TGen::tgen(t, g, d), maps: TGen::tgen(t, g, d), oo: TGen::tgen(t, g, d),
+                        marker: TGen::tgen(t, g, d), markers: TGen::tgen(t, g, d),
                         $($xz: draw_extra(t, g, stringify!($xz)),)?
                     }
                 }
@@ -602,6 +623,9 @@ macro_rules! family {
                 fn spec(&self, m: Mode) -> Doc {
                     obj(vec![("d", self.d.spec(m)), ("b", self.b.spec(m)), ("s", self.s.spec(m)), ("i", self.i.spec(m)), ("l", self.l.spec(m)), ("f", self.f.spec(m)), ("od", self.od.spec(m))])
                 }
+            }
+            impl Spec for Marker {
+                fn spec(&self, _m: Mode) -> Doc { Doc::Obj(vec![]) }
             }
             impl Spec for Wrap {
                 fn spec(&self, m: Mode) -> Doc { self.0.spec(m) }
@@ -634,7 +658,7 @@ macro_rules! family {
                 fn spec(&self, m: Mode) -> Doc {
                     obj(vec![
                         ("leaf", self.leaf.spec(m)), ("kids", self.kids.spec(m)), ("opt", self.opt.spec(m)), ("wrap", self.wrap.spec(m)),
-                        ("pair", self.pair.spec(m)), ("ts", self.ts.spec(m)), ("var", self.var.spec(m)), ("maps", self.maps.spec(m)), ("oo", self.oo.spec(m)),
+                        ("pair", self.pair.spec(m)), ("ts", self.ts.spec(m)), ("var", self.var.spec(m)), ("maps", self.maps.spec(m)), ("oo", self.oo.spec(m)), ("marker", self.marker.spec(m)), ("markers", self.markers.spec(m)),
                     ])
                 }
             }
